@@ -29,6 +29,8 @@ def bounded(ctx):
 # T1 (PyVC): Base._tokensupto2 - for every token stream, every mode flag, with and without a start token, the call consumes exactly up to and
 # including the first token at which all nesting levels are zero and the token is an end token of the mode (or EOF / end of the stream); the
 # result is the start token plus exactly the consumed tokens.  26 targets, ~56 000 obligations, under a minute.
-T1 = [('contracts.util_tokensupto2', None), ('contracts.cssstyledeclaration_parse', None)]
+T1 = [('contracts.util_tokensupto2', None), ('contracts.cssstyledeclaration_parse', None), ('contracts.cssstylesheet_parse', None)]
 # (cssstyledeclaration_parse: the callbacks `unexpected` and `ident` of CSSStyleDeclaration._setCssText, verified AGAINST the contract of _tokensupto2 -
 #  a malformed declaration is consumed exactly up to its own end, nothing is stored, the parse state is handed back)
+# (cssstylesheet_parse: the nine statement callbacks of CSSStyleSheet._setCssText - every one consumes exactly the statement that starts with its token, also when
+#  the rule parser raises, and inserts at most one rule and only a well-formed one)
